@@ -1,5 +1,134 @@
-import ChumskyModel.Model.Spec
+/-
+  C15 — context-sensitive parsing delivers the nearest context and honours configuration.
+-/
+import ChumskyModel.Proofs.Lemmas.Top
+set_option linter.unusedSimpArgs false
 namespace Chumsky
-theorem placeholder_C15 : True := trivial
-#print axioms placeholder_C15
+
+/-- **C15 (refinement).** The machine swaps a context reference in and out (`with_ctx`); the reading threads the
+    context lexically. The master refinement relates the two for every grammar, and in particular the machine
+    always hands the caller's context back, on success and on failure — inside repetitions, choices, recursion
+    and after backtracking (all of these are cases of the same induction). -/
+theorem c15_ctx_restored (n : Nat) (env : Env) (m : Mode) (g : G) (st : St) (hm : env.memoOn = false) :
+    match run n env m g st with
+    | .ok _ st' => st'.ctx = st.ctx
+    | .fail st' => st'.ctx = st.ctx
+    | _ => True := by
+  have h := run_refines n env m g st hm
+  revert h
+  cases run n env m g st <;> cases peg n env g st.ss st.ctx <;> simp [Refines]
+  · exact fun h => h.ctx
+  · exact fun h => h.ctx
+
+/-! ### the lexical reading -/
+
+/-- a reader sees the context of the reading at its own node -/
+theorem c15_reader (n : Nat) (env : Env) (a : G) (s : SS) (ctx : Val) {v s1 e1}
+    (ha : peg n env a s ctx = .ok v s1 e1) :
+    peg (n + 1) env (.mapWithCtx a) s ctx = .ok (.pair v ctx) s1 e1 := by
+  simp [peg, pegStep, SOut.andThen, ha]
+
+/-- `with_ctx(c)`: the sub-parser is read under `c` … -/
+theorem c15_with_ctx (n : Nat) (env : Env) (c : Val) (a : G) (s : SS) (ctx : Val) :
+    peg (n + 1) env (.withCtx c a) s ctx = peg n env a s c := by
+  simp [peg, pegStep]
+
+/-- … and what follows the scope is read under the outer context again (nearest enclosing provider) -/
+theorem c15_scope_ends (n : Nat) (env : Env) (c : Val) (a b : G) (s : SS) (ctx : Val) {va s1 e1}
+    (ha : peg n env a s c = .ok va s1 e1) :
+    peg (n + 2) env (.then_ (.withCtx c a) b) s ctx =
+      (peg (n + 1) env b s1 ctx).andThen fun vb s2 e2 => .ok (.pair va vb) s2 (e1 ++ e2) := by
+  have e : peg (n + 2) env (.then_ (.withCtx c a) b) s ctx =
+      (peg (n + 1) env (.withCtx c a) s ctx).andThen fun va s1 e1 =>
+        (peg (n + 1) env b s1 ctx).andThen fun vb s2 e2 => .ok (.pair va vb) s2 (e1 ++ e2) := rfl
+  rw [e, c15_with_ctx, ha]
+  rfl
+
+/-- `ignore_with_ctx` / `then_with_ctx`: the right-hand parser is read under the output of the left-hand parser
+    *of this very attempt* -/
+theorem c15_ignore_with_ctx (n : Nat) (env : Env) (a b : G) (s : SS) (ctx : Val) {va s1 e1}
+    (ha : peg n env a s ctx = .ok va s1 e1) :
+    peg (n + 1) env (.ignoreWithCtx a b) s ctx =
+      (peg n env b s1 va).andThen fun vb s2 e2 => .ok vb s2 (e1 ++ e2) := by
+  simp [peg, pegStep, SOut.andThen, ha]
+
+theorem c15_then_with_ctx (n : Nat) (env : Env) (a b : G) (s : SS) (ctx : Val) {va s1 e1}
+    (ha : peg n env a s ctx = .ok va s1 e1) :
+    peg (n + 1) env (.thenWithCtx a b) s ctx =
+      (peg n env b s1 va).andThen fun vb s2 e2 => .ok (.pair va vb) s2 (e1 ++ e2) := by
+  simp [peg, pegStep, SOut.andThen, ha]
+
+theorem c15_map_ctx (n : Nat) (env : Env) (f : CtxFn) (a : G) (s : SS) (ctx : Val) :
+    peg (n + 1) env (.mapCtx f a) s ctx = peg n env a s (f.eval ctx) := by
+  simp [peg, pegStep]
+
+/-! ### configuration -/
+
+/-- `just(..).configure(|cfg, ctx| cfg.seq(ctx))` matches exactly as `just(seq)` -/
+theorem c15_configure_just (n : Nat) (env : Env) (ts ts' : List Nat) (s : SS) (ctx' : Val) :
+    peg (n + 1) env (.configureJust .seqFromCtx ts) s (.toks ts') = peg (n + 1) env (.just ts') s ctx' := by
+  simp [peg, pegStep, Val.asToks?]
+
+/-- … and leaves the parser alone when the closure does not touch the configuration -/
+theorem c15_configure_keep (n : Nat) (env : Env) (ts : List Nat) (s : SS) (ctx : Val) :
+    peg (n + 1) env (.configureJust .keep ts) s ctx = peg (n + 1) env (.just ts) s ctx := by
+  simp [peg, pegStep]
+
+/-- rename the iterator state of a protocol result -/
+def SItOut.mapIst (f : ItSt → ItSt) : SItOut → SItOut
+  | .some v s ist em => .some v s (f ist) em
+  | .done s ist em => .done s (f ist) em
+  | o => o
+
+/-- `repeated().configure(..)`: every `next` behaves as that of the statically configured `repeated()` with the
+    bounds the closure computed (`exactly(n)`, `at_least(n)`, `at_most(n)` from the context) -/
+theorem c15_configure_rep_next (P : SRunner) (N : SNextRunner) (K : SMkRunner) (env : Env) (c : CfgFn) (a : G)
+    (lo : Nat) (hi : Option Nat) (s : SS) (ctx : Val) (k : Nat) (clo chi : Option Nat) :
+    pegNext P N K env (.configureRep c (.repeated a lo hi)) s ctx (.cfg (.cnt k) clo chi) =
+      (pegNext P N K env (.repeated a (clo.getD lo) (match chi with | some h => some h | none => hi)) s ctx (.cnt k)).mapIst
+        (fun st => .cfg st clo chi) := by
+  have key : ∀ hi' : Option Nat,
+      sRepeatedNext P env ctx a (clo.getD lo) hi' s k (fun st => .cfg st clo chi) =
+        (sRepeatedNext P env ctx a (clo.getD lo) hi' s k id).mapIst (fun st => .cfg st clo chi) := by
+    intro hi'
+    unfold sRepeatedNext
+    by_cases hc : capReached hi' k = true
+    · simp [hc, SItOut.mapIst]
+    · simp only [hc, Bool.false_eq_true, if_false]
+      cases P env a s ctx <;> simp [SItOut.mapIst]
+      split <;> rfl
+  simp only [pegNext]
+  exact key _
+
+/-- the bounds come from the context value: `exactly(n)` -/
+theorem c15_configure_rep_bounds (n : Nat) : cfgBounds .exactlyFromCtx (.nat n) = (some n, some n) ∧
+    cfgBounds .atLeastFromCtx (.nat n) = (some n, none) ∧ cfgBounds .atMostFromCtx (.nat n) = (none, some n) :=
+  ⟨rfl, rfl, rfl⟩
+
+/-- a `try_configure` closure returning `Err` is a failure of the parser (at the current position) -/
+theorem c15_try_configure_err (P : SRunner) (K : SMkRunner) (env : Env) (c : TryCfgFn) (it : It) (s : SS) (ctx : Val)
+    (h : ctx.asNat? = none) : pegMk P K env (.tryConfigureRep c it) s ctx = .fail := by
+  simp [pegMk, h]
+
+/-- non-vacuity: a length-prefixed repetition — the count read by the left parser configures the repetition -/
+example :
+    (match parseTop 12 { toks := [50, 97, 97], memoOn := false } .emit
+        (.ignoreWithCtx (.to (.nat 2) (.just [50]))
+          (.collect .vec (.configureRep .exactlyFromCtx (.repeated (.just [97]) 0 none)))) with
+      | .result r _ => (r.output, r.errs.length)
+      | _ => (none, 99)) = (some (.cons (.toks [97]) (.cons (.toks [97]) .nil)), 0) := by
+  decide +kernel
+
+#print axioms c15_ctx_restored
+#print axioms c15_reader
+#print axioms c15_with_ctx
+#print axioms c15_scope_ends
+#print axioms c15_ignore_with_ctx
+#print axioms c15_then_with_ctx
+#print axioms c15_map_ctx
+#print axioms c15_configure_just
+#print axioms c15_configure_keep
+#print axioms c15_configure_rep_next
+#print axioms c15_configure_rep_bounds
+#print axioms c15_try_configure_err
 end Chumsky
